@@ -76,6 +76,11 @@ deriving Repr, Inhabited
 inductive Seg
   | udp (tag : Nat)
   | tcp (syn ack fin rst : Bool)
+  /-- the third segment of a handshake: a bare ACK whose acknowledgement number is the
+      server's ISS + 1. The model carries no sequence numbers; this constructor is the one place
+      where an ACK's number matters (`SynReceived` only accepts the ACK of its own SYN-ACK, any
+      other ACK — a challenge ACK, the ACK of a FIN — is ignored there). Printed like any ACK. -/
+  | hsAck
 deriving DecidableEq, Repr, Inhabited
 
 structure Pkt where
@@ -196,6 +201,10 @@ structure Kernel where
   /-- Repair 91a643a: an abort (peer RST, retransmit exhaustion) in `LastAck` / `Closing` closes
       quietly: state `Closed` without the `reset` / `timed_out` mark. -/
   fixQuiet : Bool := false
+  /-- Repair 0ad6f5a (`tcp_fin_timeout`): `check_retx` also counts egress passes for a socket the
+      application has closed and that sits in `FinWait2`; after `retxThreshold * (retxMax + 1)`
+      silent passes it is aborted (timed out) and `reap_closed` collects it. -/
+  fixFw2Timeout : Bool := false
 deriving Repr, Inhabited
 
 inductive Err
@@ -399,7 +408,7 @@ def handleEstablished (k : Kernel) (fd : Fd) (l r : Ep) (syn ack fin : Bool) : K
                   esa := if progress then 0 else tc.esa, retx := if progress then 0 else tc.retx }
       if takeFin || (k.fixAck && (fin || syn)) then k.emit ⟨l, r, .tcp false true false false⟩ else k
 
-def handleOnConn (k : Kernel) (fd : Fd) (l r : Ep) (syn ack fin rst : Bool) : Kernel :=
+def handleOnConn (k : Kernel) (fd : Fd) (l r : Ep) (syn ack fin rst : Bool) (hs : Bool := false) : Kernel :=
   if rst then
     if k.fixReap && (match k.tbl.get fd with
         | some s => (match s.tcb with | some tc => tc.state == .synRecv | none => false)
@@ -419,10 +428,10 @@ def handleOnConn (k : Kernel) (fd : Fd) (l r : Ep) (syn ack fin rst : Bool) : Ke
           if syn && ack then
             (k.modTcb fd fun tc => { tc with state := .estab, esa := if k.fixRetxReset then 0 else tc.esa,
                                                retx := if k.fixRetxReset then 0 else tc.retx }).emit
-              ⟨l, r, .tcp false true false false⟩
+              ⟨l, r, .hsAck⟩
           else k
         | .synRecv =>
-          if ack && !syn then
+          if ack && !syn && hs then
             (k.modTcb fd fun tc => { tc with state := .estab, esa := if k.fixRetxReset then 0 else tc.esa,
                                                retx := if k.fixRetxReset then 0 else tc.retx }).pushToListener fd l
           else k
@@ -430,9 +439,9 @@ def handleOnConn (k : Kernel) (fd : Fd) (l r : Ep) (syn ack fin rst : Bool) : Ke
         | _ => k.handleEstablished fd l r syn ack fin
 
 /-- `tcp::deliver`. -/
-def deliverTcp (k : Kernel) (src dst : Ep) (syn ack fin rst : Bool) : Kernel :=
+def deliverTcp (k : Kernel) (src dst : Ep) (syn ack fin rst : Bool) (hs : Bool := false) : Kernel :=
   match tcpDemux k.tbl dst src syn ack rst with
-  | .conn fd => k.handleOnConn fd dst src syn ack fin rst
+  | .conn fd => k.handleOnConn fd dst src syn ack fin rst hs
   | .listener lfd => k.acceptSyn lfd dst src
   | .rst => k.emitRst dst src ack
   | .ignore => k
@@ -442,6 +451,7 @@ def deliver (k : Kernel) (p : Pkt) : Kernel :=
   match p.seg with
   | .udp tag => k.deliverUdp p.src p.dst tag
   | .tcp syn ack fin rst => k.deliverTcp p.src p.dst syn ack fin rst
+  | .hsAck => k.deliverTcp p.src p.dst false true false false true
 
 def transmittable (s : TcpState) : Bool :=
   s == .estab || s == .closeWait || s == .finWait1 || s == .closing || s == .lastAck
@@ -472,7 +482,8 @@ def checkRetx (k : Kernel) : Kernel :=
       | some tc =>
         let handshake := tc.state == .synSent || tc.state == .synRecv
         let data := transmittable tc.state && tc.finSent && !tc.finAcked
-        if !(handshake || data) then k
+        let fw2orphan := k.fixFw2Timeout && s.fdClosed && tc.state == .finWait2
+        if !(handshake || data || fw2orphan) then k
         else if tc.esa + 1 < retxThreshold then k.modTcb s.fd fun tc => { tc with esa := tc.esa + 1 }
         else if tc.retx ≥ retxMax then
           if k.fixReap && tc.state == .synRecv then { k with tbl := k.tbl.remove s.fd }
@@ -481,7 +492,8 @@ def checkRetx (k : Kernel) : Kernel :=
                       timedOut := if k.fixQuiet && (tc.state == .lastAck || tc.state == .closing) then tc.timedOut else true }
         else
           let k := k.modTcb s.fd fun tc =>
-            { tc with esa := 0, retx := tc.retx + 1, finSent := if handshake then tc.finSent else false }
+            { tc with esa := 0, retx := tc.retx + 1,
+                      finSent := if handshake || tc.finAcked then tc.finSent else false }
           if tc.state == .synSent then k.emit ⟨boundEp s, tc.peer, .tcp true false false false⟩
           else if tc.state == .synRecv then k.emit ⟨boundEp s, tc.peer, .tcp true true false false⟩
           else k) k
@@ -621,9 +633,9 @@ deriving Repr, Inhabited
 namespace Fabric
 
 def addHost (f : Fabric) (addrs : List Ip) (fixReap : Bool := false) (fixAck : Bool := false)
-    (fixRetxReset : Bool := false) (fixQuiet : Bool := false) : Fabric :=
+    (fixRetxReset : Bool := false) (fixQuiet : Bool := false) (fixFw2Timeout : Bool := false) : Fabric :=
   let id := f.hosts.length
-  { hosts := f.hosts ++ [{ addrs := addrs.eraseDups, fixReap := fixReap, fixAck := fixAck, fixRetxReset := fixRetxReset, fixQuiet := fixQuiet }],
+  { hosts := f.hosts ++ [{ addrs := addrs.eraseDups, fixReap := fixReap, fixAck := fixAck, fixRetxReset := fixRetxReset, fixQuiet := fixQuiet, fixFw2Timeout := fixFw2Timeout }],
     ipToHost := f.ipToHost ++ addrs.map fun a => (a, id) }
 
 /-- `PortAllocator::new(lo..=hi)` on every host (verification hook, before any socket exists). -/
